@@ -1,14 +1,14 @@
 SPECIFICATION Spec
 CONSTANTS
-  Writers <- W3
-  Subs <- S0
+  Writers <- W2
+  Subs <- S1
   Ids <- I1
   MaxV = 6
-  Programs <- CollPrograms
-  SubKinds <- Kinds
-  InitStores <- CollStores
+  Programs <- AttackLossyPrograms
+  SubKinds <- KindLossySeed
+  InitStores <- AbsentStore
   PublishAfterUnlock = FALSE
   CreatedRevalidated = TRUE
-  SubSer = TRUE
+  SubSer = FALSE
 INVARIANT EmitSched
 CHECK_DEADLOCK FALSE
